@@ -266,6 +266,7 @@ func init() {
 			k := DefaultKnobs()
 			k.PInfo = 85
 			k.PInfoShare = 35
+			k.PNilOptArg = 8
 			k.WBadProvide, k.WCycleCloser, k.WDupDecorate, k.WBadDecorate = 2, 2, 2, 1
 			k.PFresh = 80
 			k.PAs, k.PVariadic, k.PSoft, k.PFlatten = 30, 20, 40, 40
